@@ -5,11 +5,13 @@ import json, os, re, subprocess, sys, glob
 sys.path.insert(0, "/verif")
 import check
 REPO = "/repo"
-out = {}
+out = json.load(open('/verif/seeded/refine_matrix.json')) if os.path.exists('/verif/seeded/refine_matrix.json') else {}
 files = ["Consts", "HelpersR", "SigCore", "SigSchemes", "PoK", "SignCrypt", "TimeLock", "ElGamal", "WSig", "WPoK", "WEnc", "WCodec", "WEnum"]
 assert not subprocess.run(["git", "-C", REPO, "status", "--porcelain"], capture_output=True).stdout.strip()
 for d in sorted(glob.glob("/verif/seeded/C*-m*")):
     sid = os.path.basename(d)
+    if sid in out and '--all' not in sys.argv:
+        continue
     subprocess.run(["git", "-C", REPO, "apply", os.path.join(d, "patch.diff")], check=True)
     try:
         ok, log, st = check.regen()
